@@ -260,7 +260,9 @@ func (e *env) scan() {
 				break // conversion
 			}
 			if id, ok := n.Fun.(*ast.Ident); ok {
-				if _, isB := e.obj(id).(*types.Builtin); isB && (id.Name == "len" || id.Name == "cap" || id.Name == "min" || id.Name == "max") {
+				// builtins never change the length of any slice/string other than through
+				// the assignment of their result, which is recorded as an assignment
+				if _, isB := e.obj(id).(*types.Builtin); isB {
 					break
 				}
 			}
